@@ -116,11 +116,15 @@ def model_vcf(v):
 # generation
 
 
-def _gen_smp(rng, ad_number, nalt, dyadic):
+def _gen_smp(rng, ad_number, nalt, dyadic, het_rich=False):
     gt = list(rng.choice(GTS))
+    if het_rich and rng.random() < 0.5:
+        gt = [0, 1]
     if nalt > 1 and rng.random() < 0.5:
         gt = [rng.randint(0, nalt), rng.randint(0, nalt)]
     dp = rng.choice([8, 16, 32, 64]) if dyadic else rng.choice([0, 1, 5, 19, 20, 21, 30, 30, 47, 60, 100, rng.randint(0, 200)])
+    if het_rich and dp < 20 and rng.random() < 0.7:
+        dp = 32 if dyadic else rng.randint(20, 90)
     if gt == [0, 0] or gt == [0]:
         alt = rng.choice([0, 0, 0, 1])
     elif len(set(gt)) > 1:
@@ -150,7 +154,7 @@ def _gen_smp(rng, ad_number, nalt, dyadic):
     return {"gt": gt, "phased": rng.random() < 0.2, "ad": ad, "dp": dp, "trunc": rng.random() < 0.3}
 
 
-def gen_vcf(rng, nmax=40, biallelic_only=False, dyadic=False, allow_inf=False, ns=None):
+def gen_vcf(rng, nmax=40, biallelic_only=False, dyadic=False, allow_inf=False, ns=None, het_rich=False):
     ns = ns or rng.choice([1, 1, 2, 2, 3])
     names = rng.choice([["S0", "S1", "S2"], ["TUMOR", "NORMAL", "X9"], ["b", "a", "c"]])[:ns]
     tags = []
@@ -208,18 +212,19 @@ def gen_vcf(rng, nmax=40, biallelic_only=False, dyadic=False, allow_inf=False, n
                 fmt = ["GT", "DP"]
             else:
                 fmt = rng.choice([["GT", "AD", "DP"], ["GT", "AD", "DP"], ["GT", "AD"], ["GT", "DP"], ["GT"], ["GT", "DP", "AD"]])
-            smps = [_gen_smp(rng, ad_number, max(1, len(alts)), dyadic) for _ in names]
+            smps = [_gen_smp(rng, ad_number, max(1, len(alts)), dyadic, het_rich) for _ in names]
             if not allow_inf:
                 for s in smps:  # no DP=0 next to a positive alt count (infinite frequency)
                     if "DP" in fmt and s["dp"] == 0:
                         s["dp"] = 1 if rng.random() < 0.5 else None
             recs.append({"chrom": c, "pos": pos, "ref": ref, "alts": alts,
                          "filter": rng.choice([["PASS"], ["PASS"], ["PASS"], [], ["q10"], ["KEEP"], ["q10", "s50"]]),
-                         "info_dp": rng.choice([None, 0, 30, rng.randint(0, 300)]) if rng.random() < 0.75 else None,
+                         "info_dp": rng.choice([None, 0 if allow_inf else 1, 30, rng.randint(1, 300)]) if rng.random() < 0.75 else None,
                          "somatic": rng.random() < 0.15, "fmt": fmt, "smps": smps})
     if rng.random() < 0.15:
         rng.shuffle(recs)  # file order differs from cnvkit's order
-    return {"samples": names, "tags": tags, "ad_number": ad_number, "contigs": contigs, "records": recs}
+    return {"samples": names, "tags": tags, "ad_number": ad_number, "contigs": contigs, "records": recs,
+            "fmt_style": fmt_style}
 
 
 def _gen_sel(rng, names, allow_bad=True):
@@ -245,18 +250,23 @@ def gen_read(rng, nmax=40, **kw):
                    "skip_reject": rng.random() < 0.2, "skip_somatic": rng.random() < 0.5}}
 
 
-def _gen_hetopts(rng, names):
-    zf = rng.choice([None, None, None, None, 0.25, 0.125, 0.5, 0.0, 0.3, 0.1, 0.4, 0.6])
+def _gen_hetopts(rng, v):
+    names = v["samples"]
+    zf = rng.choice([None, None, None, None, None, None, None, 0.25, 0.25, 0.125, 0.1, 0.3,
+                     rng.choice([0.0, 0.4, 0.375, 0.5, 0.6, 0.2, 0.45])])
+    if v.get("fmt_style") in ("gt_only", "no_ad") and rng.random() < 0.9:
+        zf = None  # without AD every frequency is 0: nothing would be heterozygous by frequency
     nid = _gen_sel(rng, names, False) if len(names) >= 2 and rng.random() < 0.5 else None
     return {"sid": _gen_sel(rng, names, rng.random() < 0.3), "nid": nid,
             "min_depth": rng.choice([20, 20, 20, 0, None, 10, 1]), "zyg_freq": zf,
-            "tumor_boost": rng.random() < 0.3}
+            "tumor_boost": rng.random() < (0.4 if (nid is not None or any(k == "Derived" for t in v["tags"] for k, _ in t))
+                                           else 0.03)}
 
 
 def gen_hets(rng, nmax=40):
-    v = gen_vcf(rng, nmax, dyadic=rng.random() < 0.3, ns=rng.choice([1, 2, 2, 2, 3]))
+    v = gen_vcf(rng, nmax, dyadic=rng.random() < 0.3, ns=rng.choice([1, 2, 2, 2, 3]), het_rich=rng.random() < 0.8)
     i = {"vcf": v}
-    i.update(_gen_hetopts(rng, v["samples"]))
+    i.update(_gen_hetopts(rng, v))
     return {"op": "vcf_hets", "tag": "hets", "in": i}
 
 
@@ -337,22 +347,25 @@ def gen_table(rng, nmax=60):
 
 def gen_baf(rng, nmax=60):
     t, contigs, span = gen_table(rng, nmax)
+    # (TumorBoost on a table without rows raises TypeError inside pandas: not generated)
     return {"op": "vcf_baf", "tag": "baf",
             "in": {"table": t, "segs": _gen_segs(rng, contigs, span),
-                   "above": rng.choice([None, None, None, None, True, False]), "boost": rng.random() < 0.35}}
+                   "above": rng.choice([None, None, None, None, True, False]),
+                   "boost": rng.random() < 0.35 and len(t["rows"]) > 0}}
 
 
 def gen_mirror(rng, nmax=30):
     t, _, _ = gen_table(rng, nmax)
     return {"op": "vcf_mirror", "tag": "mirror",
-            "in": {"table": t, "above": rng.choice([None, None, True, False]), "boost": rng.random() < 0.35}}
+            "in": {"table": t, "above": rng.choice([None, None, True, False]),
+                   "boost": rng.random() < 0.35 and len(t["rows"]) > 0}}
 
 
 def gen_pipeline(rng, nmax=40):
     dy = rng.random() < 0.4
-    v = gen_vcf(rng, nmax, biallelic_only=True, dyadic=dy, ns=rng.choice([1, 2, 2, 3]))
+    v = gen_vcf(rng, nmax, biallelic_only=True, dyadic=dy, ns=rng.choice([1, 2, 2, 3]), het_rich=rng.random() < 0.85)
     span = max([r["pos"] for r in v["records"]] + [10]) + 10
-    o = _gen_hetopts(rng, v["samples"])
+    o = _gen_hetopts(rng, v)
     o["tumor_boost"] = False
     if o["zyg_freq"] == 0.6:
         o["zyg_freq"] = None
@@ -416,7 +429,7 @@ def corpus():
     tb = {"paired": True, "rows": rows, "drop": [False] * 4, "dyadic": True}
     single = {"samples": ["S0"], "tags": [], "ad_number": "R", "contigs": ["chr1"],
               "records": [_rec("chr1", 10, "A", "G", [_smp([0, 1], [3, 4], 7)], info_dp=30)]}
-    # an insertion just before a segment boundary, a deletion across it (fix Z)
+    # an insertion just before a segment boundary (its row ends at start + len(alt), inside the next segment)
     indel = {"samples": ["S0"], "tags": [], "ad_number": "R", "contigs": ["chr1"],
              "records": [_rec("chr1", 50, "A", "G", [_smp([0, 1], [24, 8], 32)]),
                          _rec("chr1", 100, "A", "ACGT", [_smp([0, 1], [8, 24], 32)]),
@@ -432,7 +445,7 @@ def corpus():
                                                      "above": None, "boost": True}},
         {"op": "vcf_read", "tag": "corpus-Y", "in": {"vcf": single, "sid": None, "nid": "S0", "min_depth": None,
                                                      "skip_reject": False, "skip_somatic": False}},
-        {"op": "vcf_pipeline", "tag": "corpus-Z", "in": dict(base, vcf=indel, segs=[["chr1", 0, 100], ["chr1", 100, 200]],
+        {"op": "vcf_pipeline", "tag": "corpus-indel-boundary", "in": dict(base, vcf=indel, segs=[["chr1", 0, 100], ["chr1", 100, 200]],
                                                              purity=None, dyadic=True)},
         {"op": "vcf_hets", "tag": "corpus-X", "in": dict(base, vcf=homs)},
         {"op": "vcf_pipeline", "tag": "corpus-X", "in": dict(base, vcf=homs, segs=[["chr1", 0, 100]], purity=None, dyadic=True)},
@@ -593,7 +606,7 @@ def run_impl(case):
                                columns=["chromosome", "start", "end", "gene", "log2", "probes"])
         if not len(varr):
             # `if variants:` is False for an empty array: do_call adds no baf column at all
-            return _series(varr.baf_by_ranges(segarr))
+            return [None] * len(segarr)
         out = call.do_call(segarr, variants=varr, method="none", purity=i["purity"], is_sample_female=True)
         return _series(out["baf"])
     if op == "vcf_boost":
@@ -692,14 +705,17 @@ def judge(case, impl, resp):
                 if not _close(a, b):
                     disagree.append(f"value {k}: impl {a} model {b}")
                     break
-    skipped = None
-    slack = resp.get("slack")
-    if (disagree or spec) and slack is not None and float(Fraction(slack)) < 1e-9 and not _dyadic_case(case) \
-            and not (ierr or merr):
-        return [], [], f"knife-edge: slack {slack}"
+    # knife-edge: a frequency within 1e-9 of (but not exactly on) a zygosity threshold, or a median
+    # within 1e-9 of 0.5 computed from numbers on which float arithmetic is not exact
+    if (disagree or spec) and not (ierr or merr):
+        zs, ms = resp.get("slack"), resp.get("mslack")
+        if zs is not None and 0 < float(Fraction(zs)) < 1e-9:
+            return [], [], f"knife-edge: threshold slack {zs}"
+        if ms is not None and float(Fraction(ms)) < 1e-9 and not _dyadic_case(case):
+            return [], [], f"knife-edge: median slack {ms}"
     if spec and ierr and ierr not in ERRS:
         spec = ["raises_" + ierr] + spec
-    return spec, ([] if spec else disagree), skipped
+    return spec, ([] if spec else disagree), None
 
 
 def nontrivial(case, impl, resp):
